@@ -11,8 +11,9 @@
 
 namespace sim {
 
-template<bool Fancy, bool POCCA, bool POCMA, bool POCS, bool SOCCC_DEFAULT = false, bool DefaultInit = false>
+template<bool Fancy, bool POCCA, bool POCMA, bool POCS, bool SOCCC_DEFAULT = false, bool DefaultInit = false, bool AlwaysEqual = false>
 struct alloc_cfg {
+	static constexpr bool always_equal = AlwaysEqual;  // is_always_equal: every instance lives on arena 0 and compares equal
 	static constexpr bool fancy = Fancy, pocca = POCCA, pocma = POCMA, pocs = POCS, soccc_default = SOCCC_DEFAULT;
 	static constexpr bool default_init = DefaultInit;  // the allocator has its own construct(): zero-argument construction default-initialises
 	template<class T> using ptr_t = std::conditional_t<Fancy, sim::ptr<T>, T*>;
@@ -33,7 +34,7 @@ struct allocator {
 	using propagate_on_container_copy_assignment = std::bool_constant<Cfg::pocca>;
 	using propagate_on_container_move_assignment = std::bool_constant<Cfg::pocma>;
 	using propagate_on_container_swap            = std::bool_constant<Cfg::pocs>;
-	using is_always_equal                        = std::false_type;
+	using is_always_equal                        = std::bool_constant<Cfg::always_equal>;
 
 	template<class U> struct rebind {
 		using other = allocator<U, Cfg>;
@@ -42,7 +43,7 @@ struct allocator {
 	int arena = 0;
 
 	allocator() = default;
-	explicit allocator(int a) : arena{a} {}
+	explicit allocator(int a) : arena{Cfg::always_equal ? 0 : a} {}
 	template<class U> allocator(allocator<U, Cfg> const& o) : arena{o.arena} {}  // NOLINT
 
 	auto allocate(size_type n) -> pointer {
